@@ -64,11 +64,21 @@ type BoundContract struct {
 	Recovers    bool
 	MayPanic    bool
 	Trusted     bool
+	Variant     string
 	FreshResult map[int]bool
 	Known       map[string]string // clause label -> known finding id
 }
 
 func (bc *BoundContract) info() *types.Info { return bc.Pkg.TypesInfo }
+
+// KeyString identifies the contract: package path, function key and variant.
+func (bc *BoundContract) KeyString() string {
+	k := bc.Pkg.PkgPath + "." + bc.FC.Key()
+	if bc.Variant != "" {
+		k += "[" + bc.Variant + "]"
+	}
+	return k
+}
 
 // ---- spec environment -----------------------------------------------------------------------
 
@@ -360,6 +370,16 @@ func (env *specEnv) binary(x *ast.BinaryExpr) Val {
 		} else if yt, ok := env.typeOf(x.Y).(*types.Basic); ok && yt.Kind() == types.UntypedNil {
 			b = u.zeroVal(xt)
 		}
+		// comparison of an interface value with a concrete one: box the concrete side
+		yt := env.typeOf(x.Y)
+		_, xi := xt.Underlying().(*types.Interface)
+		_, yi := yt.Underlying().(*types.Interface)
+		if _, bIsIface := b.(*IfaceV); xi && !yi && !bIsIface {
+			b = u.makeIface(env.st.clone(), b, yt)
+		} else if _, aIsIface := a.(*IfaceV); yi && !xi && !aIsIface {
+			a = u.makeIface(env.st.clone(), a, xt)
+			xt = yt
+		}
 		eq := u.valEq(env.st, a, b, xt)
 		if x.Op == token.NEQ {
 			return c.Not(eq)
@@ -493,10 +513,10 @@ func (env *specEnv) index(x *ast.IndexExpr) Val {
 	switch t := xt.Underlying().(type) {
 	case *types.Slice:
 		sv := env.eval(x.X).(*SliceV)
-		return u.load(env.st, c.Idx(sv.Base, c.Add(sv.Off, i)), t.Elem())
+		return u.load(env.st, c.Idx(sv.Base, c.AddRaw(sv.Off, i)), t.Elem())
 	case *types.Basic: // string
 		sv := env.eval(x.X).(*SliceV)
-		return u.readCell(env.st, "bv8", c.Idx(sv.Base, c.Add(sv.Off, i)))
+		return u.readCell(env.st, "bv8", c.Idx(sv.Base, c.AddRaw(sv.Off, i)))
 	case *types.Array:
 		a, _ := env.addr(x.X)
 		return u.load(env.st, c.Idx(a, i), t.Elem())
@@ -543,7 +563,7 @@ func (env *specEnv) slice(x *ast.SliceExpr) Val {
 	if x.High != nil {
 		hi = env.to64(x.High)
 	}
-	r := &SliceV{Str: str, Base: base, Off: c.Add(off, lo), Len: c.Sub(hi, lo), Cap: c.Sub(cp, lo)}
+	r := &SliceV{Str: str, Base: base, Off: c.AddRaw(off, lo), Len: c.Sub(hi, lo), Cap: c.Sub(cp, lo)}
 	if str {
 		r.Cap = r.Len
 	}
@@ -625,7 +645,7 @@ func (env *specEnv) addr(e ast.Expr) (*Term, types.Type) {
 		switch t := xt.Underlying().(type) {
 		case *types.Slice:
 			sv := env.eval(x.X).(*SliceV)
-			return c.Idx(sv.Base, c.Add(sv.Off, i)), t.Elem()
+			return c.Idx(sv.Base, c.AddRaw(sv.Off, i)), t.Elem()
 		case *types.Array:
 			a, _ := env.addr(x.X)
 			return c.Idx(a, i), t.Elem()
@@ -892,18 +912,18 @@ func (env *specEnv) region(items []ast.Expr, all bool) *Region {
 					idt := env.identity(call.Args[0])
 					base := c.Fld(idt, fGhostOut)
 					lenCell := c.Fld(base, fGhostLen)
-					r.add("bv64", func(a *Term) *Term { return c.Eq(a, lenCell) })
+					r.setRoot(lenCell); r.add("bv64", func(a *Term) *Term { return c.Eq(a, lenCell) })
 					r.addElems(u, base, nil, nil, types.Typ[types.Uint8])
 					continue
 				case "held":
 					idt := env.identity(call.Args[0])
 					cell := c.Fld(idt, fGhostHeld)
-					r.add("bool", func(a *Term) *Term { return c.Eq(a, cell) })
+					r.setRoot(cell); r.add("bool", func(a *Term) *Term { return c.Eq(a, cell) })
 					continue
 				case "misc":
 					idt := env.identity(call.Args[0])
 					cell := c.Fld(idt, fGhostMisc)
-					r.add("bv64", func(a *Term) *Term { return c.Eq(a, cell) })
+					r.setRoot(cell); r.add("bv64", func(a *Term) *Term { return c.Eq(a, cell) })
 					continue
 				case "ghostInt", "ghostBool":
 					cell := c.Fld(env.identity(call.Args[0]), env.ghostField(call.Args[1]))
@@ -911,12 +931,12 @@ func (env *specEnv) region(items []ast.Expr, all bool) *Region {
 					if id.Name == "ghostBool" {
 						kind = "bool"
 					}
-					r.add(kind, func(a *Term) *Term { return c.Eq(a, cell) })
+					r.setRoot(cell); r.add(kind, func(a *Term) *Term { return c.Eq(a, cell) })
 					continue
 				case "ghostBytes", "ghostSeq":
 					base := c.Fld(env.identity(call.Args[0]), env.ghostField(call.Args[1]))
 					lenCell := c.Fld(base, fGhostLen)
-					r.add("bv64", func(a *Term) *Term { return c.Eq(a, lenCell) })
+					r.setRoot(lenCell); r.add("bv64", func(a *Term) *Term { return c.Eq(a, lenCell) })
 					if id.Name == "ghostBytes" {
 						r.addElems(u, base, nil, nil, types.Typ[types.Uint8])
 					} else {
@@ -927,7 +947,7 @@ func (env *specEnv) region(items []ast.Expr, all bool) *Region {
 					idt := env.identity(call.Args[0])
 					base := c.Fld(idt, fGhostSeq)
 					lenCell := c.Fld(base, fGhostLen)
-					r.add("bv64", func(a *Term) *Term { return c.Eq(a, lenCell) })
+					r.setRoot(lenCell); r.add("bv64", func(a *Term) *Term { return c.Eq(a, lenCell) })
 					r.addElems(u, base, nil, nil, types.NewInterfaceType(nil, nil))
 					continue
 				}
